@@ -555,6 +555,8 @@ RULES = [
     Rule('C11.T2', 'the interpreter gives an exact zero sum the sign the machine gives it (-0 under round-toward-negative)', t2_zero_sums, 4, 'T'),
     Rule('C11.P2', 'range loops: the exit test follows the sign of the step; stop and step are fixed before the first trip', p2_range_loops, 11, 'P,T'),
     Rule('C11.T3', 'the integer type of a range loop variable holds every element of the range (= C14.T8, format of a known range)', t3_range_elements, 1, 'T'),
+    Rule('C11.T4', 'with optimize=True: no addition or subtraction is moved across a round-toward-negative scope, whose rounding decides the sign of a zero sum (= C10.T6)',
+         lambda ctx: __import__('sa.props.c10', fromlist=['t6_zero_sum_scopes']).t6_zero_sum_scopes(ctx), 8, 'T'),
     Rule('C11.D1', 'static array lengths: the length of a region is the meet of every contribution, unknown absorbing', d1_region_sizes, 4, 'D'),
 ]
 
